@@ -117,6 +117,11 @@ ext_opaque!{
     ExLiteral => proc_macro2::Literal,
     ExError => syn::Error,
 }
+verus! {
+#[verifier::external_type_specification]
+#[verifier::external_body]
+pub struct ExParseBuffer<'a>(syn::parse::ParseBuffer<'a>);
+}
 
 /// The abstract content of a token stream.
 pub uninterp spec fn tv(s: TokenStream) -> Seq<Tok>;
@@ -156,6 +161,9 @@ impl ToTokensSpecImpl for proc_macro2::Ident {
 }
 pub assume_specification[ proc_macro2::Ident::new ](s: &str, span: Span) -> (r: proc_macro2::Ident)
     ensures ident_str(&r) == s@;
+/// identifiers compare by their text
+pub assume_specification[ <proc_macro2::Ident as core::cmp::PartialEq>::eq ](a: &proc_macro2::Ident, b: &proc_macro2::Ident) -> (r: bool)
+    ensures r == (ident_str(a) == ident_str(b));
 pub assume_specification[ proc_macro2::Ident::span ](i: &proc_macro2::Ident) -> Span;
 pub assume_specification[ proc_macro2::Span::call_site ]() -> Span;
 pub assume_specification[ <proc_macro2::Ident as core::clone::Clone>::clone ](i: &proc_macro2::Ident) -> (r: proc_macro2::Ident)
@@ -245,7 +253,6 @@ syn_opaque_node!{
     ExAttribute, syn::Attribute, attribute_toks;
     ExVisRestricted, syn::VisRestricted, vis_restricted_toks;
     ExTypeParamBound, syn::TypeParamBound, bound_toks;
-    ExWherePredicate, syn::WherePredicate, where_predicate_toks;
     ExAbi, syn::Abi, abi_toks;
     ExVariadic, syn::Variadic, variadic_toks;
     ExReturnType, syn::ReturnType, return_type_toks;
@@ -308,6 +315,18 @@ pub assume_specification<'a, T, P>[ syn::punctuated::Punctuated::<T, P>::iter ](
         forall|i: int| #![auto] 0 <= i < pseq(p).len() ==> *r.remaining()[i] == pseq(p)[i],
         r.decrease() is Some,
 ;
+#[verifier::external_type_specification]
+#[verifier::external_body]
+#[verifier::reject_recursive_types(T)]
+pub struct ExPIntoIter<T>(syn::punctuated::IntoIter<T>);
+pub assume_specification<T, P>[ <syn::punctuated::Punctuated<T, P> as core::iter::IntoIterator>::into_iter ](p: syn::punctuated::Punctuated<T, P>) -> (r: <syn::punctuated::Punctuated<T, P> as core::iter::IntoIterator>::IntoIter)
+    ensures
+        r.obeys_prophetic_iter_laws(),
+        r.will_return_none(),
+        r.remaining() == pseq(&p),
+        r.decrease() is Some,
+;
+pub assume_specification<T>[ <syn::punctuated::IntoIter<T> as core::iter::Iterator>::next ](it: &mut syn::punctuated::IntoIter<T>) -> (r: Option<<syn::punctuated::IntoIter<T> as core::iter::Iterator>::Item>);
 pub assume_specification<'a, T>[ <syn::punctuated::Iter<'a, T> as core::iter::Iterator>::next ](it: &mut syn::punctuated::Iter<'a, T>) -> (r: Option<<syn::punctuated::Iter<'a, T> as core::iter::Iterator>::Item>);
 
 } // verus!
@@ -346,6 +365,7 @@ verus! {
 #[verifier::external_type_specification] pub struct ExPath(syn::Path);
 #[verifier::external_type_specification] pub struct ExPathSegment(syn::PathSegment);
 #[verifier::external_type_specification] pub struct ExPredicateType(syn::PredicateType);
+#[verifier::external_type_specification] pub struct ExWherePredicate(syn::WherePredicate);
 #[verifier::external_type_specification] pub struct ExPat(syn::Pat);
 #[verifier::external_type_specification] pub struct ExPatIdent(syn::PatIdent);
 #[verifier::external_type_specification] pub struct ExPatType(syn::PatType);
@@ -367,6 +387,7 @@ syn_node_toks!{
     syn::Type, type_toks;
     syn::Path, path_toks;
     syn::Pat, pat_toks;
+    syn::WherePredicate, where_predicate_toks;
 }
 verus! {
 /// an inherited (absent) visibility prints nothing; `pub` prints the keyword
